@@ -438,7 +438,7 @@ package bufimageutil
 //@   assert before "t.elements[descriptor] = inclusionModeExcluded"@2 dropped-extension-added-nothing: t.imports == old(t.imports) && ghost.l_impCount == old(ghost.l_impCount) && ghost.l_impTo == old(ghost.l_impTo) && ghost.l_optRead == old(ghost.l_optRead) && (forall d ref :: d in ghost.l_kept && d != descriptor ==> d in old(ghost.l_kept)) && (forall d namedDescriptor :: d != descriptor ==> ((d in t.elements) <==> (d in old(t.elements))) && t.elements[d] == old(t.elements)[d])
 //@   ensures excluded-is-noop: f_mode(old(t.elements), descriptor) == inclusionModeExcluded ==> err == nil && t.elements == old(t.elements) && t.imports == old(t.imports) && ghost.l_kept == old(ghost.l_kept) && ghost.l_optRead == old(ghost.l_optRead) && ghost.l_impTo == old(ghost.l_impTo) && ghost.l_impCount == old(ghost.l_impCount)
 //@   ensures already-added-adds-only-import: descriptor in old(imageIndex.ByDescriptor) && descriptor in old(t.elements) && old(t.elements)[descriptor] != inclusionModeEnclosing && old(t.elements)[descriptor] != inclusionModeExcluded ==> err == nil && ghost.l_kept == old(ghost.l_kept) && ghost.l_optRead == old(ghost.l_optRead) && ghost.l_impCount == old(ghost.l_impCount) + 1 && ghost.l_impTo == add(old(ghost.l_impTo), old(imageIndex.ByDescriptor)[descriptor].file.Path())
-//@   ensures already-added-only-upgraded: descriptor in old(t.elements) && old(t.elements)[descriptor] != inclusionModeEnclosing && old(t.elements)[descriptor] != inclusionModeExcluded ==> (forall d namedDescriptor :: d != descriptor ==> ((d in t.elements) <==> (d in old(t.elements))) && t.elements[d] == old(t.elements)[d]) && descriptor in t.elements && t.elements[descriptor] == ite(old(t.elements)[descriptor] == inclusionModeImplicit && !impliedByCustomOption, inclusionModeExplicit, old(t.elements)[descriptor])
+//@   ensures already-added-only-upgraded {C12 C02}: descriptor in old(t.elements) && old(t.elements)[descriptor] != inclusionModeEnclosing && old(t.elements)[descriptor] != inclusionModeExcluded ==> (forall d namedDescriptor :: d != descriptor ==> ((d in t.elements) <==> (d in old(t.elements))) && t.elements[d] == old(t.elements)[d]) && descriptor in t.elements && t.elements[descriptor] == ite(old(t.elements)[descriptor] == inclusionModeImplicit && !impliedByCustomOption, inclusionModeExplicit, old(t.elements)[descriptor])
 //@   ensures added-import-recorded: err == nil && descriptor in old(imageIndex.ByDescriptor) && f_mode(old(t.elements), descriptor) != inclusionModeExcluded && typeOf(descriptor) != typeId(*descriptorpb.FieldDescriptorProto) ==> old(imageIndex.ByDescriptor)[descriptor].file.Path() in ghost.l_impTo && ghost.l_impCount > old(ghost.l_impCount)
 //@   ensures kept-monotone: forall d ref :: d in old(ghost.l_kept) ==> d in ghost.l_kept
 //@   ensures explored-monotone: forall d ref :: d in old(ghost.l_optRead) ==> d in ghost.l_optRead
